@@ -75,6 +75,8 @@ def rnd_arr(r, dt=None, lens=None, finite_only=False, distinct=False, infs=0.0, 
 
 
 def rnd_bound(r, n):
+    if r.random() < 0.03:
+        return r.choice([2 ** 30, 2 ** 30, -2 ** 30, 100000])      # far beyond any row: index arithmetic must not depend on the index width
     return r.choice([NONE, NONE, 0, 1, -1, 2, -2, n, -n, n - 1, -n - 1, n + 1, n + 3, -n - 4, r.randint(-12, 12)])
 
 
